@@ -355,10 +355,44 @@ def noise_terms(P, a, force, start=None):
 ADM_REL = 1e-4  # float32 allowance for cone membership (relative to the normal force)
 
 
-def admissibility(rec, mjm, m, d, w, rows=None, contact_force=True, sig_prefix="", start=None):
+def admissibility_empty(rec, mjm, m, d, w, sig_prefix="", start=None):
+  """World w has no constraint rows: J^T efc.force is the empty sum, so qfrc_constraint must be zero up to the round-off of
+  the Newton/pyramidal reconstruction Ma - qfrc_smooth - grad (exactly zero on every other path)."""
+  nv = mjm.nv
+  rec.check()
+  qc = np.asarray(mw.npy(d.qfrc_constraint)[w], dtype=np.float64)[:nv]
+  if not np.all(np.isfinite(qc)):
+    rec.viol(sig_prefix + "qfrc_constraint:nonfinite", f"qfrc_constraint not finite world {w} (no constraint rows)")
+    return
+  Ma = np.asarray(mw.npy(d.efc.Ma)[w], dtype=np.float64)[:nv]
+  qs = np.asarray(mw.npy(d.qfrc_smooth)[w], dtype=np.float64)[:nv]
+  extra = 0.0
+  if start is not None:
+    Md = mw.dense_M(mjm, np.asarray(mw.npy(d.M)[w]).reshape(-1))
+    extra = np.abs(Md) @ np.abs(np.asarray(start, dtype=np.float64))[:nv]
+  fin = np.isfinite(Ma) & np.isfinite(qs)
+  bound = 128 * EPS32 * (np.where(fin, np.abs(Ma) + np.abs(qs), 0.0) + extra) + 1e-6
+  ratio = float((np.abs(qc) / bound).max()) if nv else 0.0
+  rec.worst("adm:qfrc_constraint:no_rows", ratio)
+  rec.cover("adm_worlds_without_rows", 1)
+  if ratio > 30:
+    i = int(np.argmax(np.abs(qc) / bound))
+    rec.viol(
+      sig_prefix + "qfrc_constraint!=JT.force:world_without_rows",
+      f"world {w} has nefc=0 (J^T efc.force = 0) but qfrc_constraint[{i}]={qc[i]:.6g} (bound {bound[i]:.3g}), max |qfrc_constraint|={np.abs(qc).max():.6g}",
+      dof=i,
+    )
+  elif ratio > 1:
+    rec.inconcl("qfrc_constraint of a world without rows in grey zone")
+
+
+def admissibility(rec, mjm, m, d, w, rows=None, contact_force=True, sig_prefix="", start=None, judge_empty=False, start_force=False):
   """C24: physical admissibility of the reported constraint forces of world w (after forward/step).
 
   Returns the number of rows looked at. Violations are recorded on rec with mechanism signatures.
+  judge_empty: a world with nefc == 0 is judged too (qfrc_constraint must be the empty sum); default off = old behaviour.
+  start_force: the float32 floor of qfrc_constraint also carries the row forces AT the start point of the solve
+  (Newton/pyramidal only; needed when the start point is far from the solution: rewritten / reset worlds); default off.
   """
   import warp as wp
 
@@ -367,6 +401,8 @@ def admissibility(rec, mjm, m, d, w, rows=None, contact_force=True, sig_prefix="
   rows = rows if rows is not None else mw.efc_rows(mjm, m, d, w)
   n = rows["nefc"]
   if n == 0:
+    if judge_empty and rows.get("nefc_raw", 0) == 0:
+      admissibility_empty(rec, mjm, m, d, w, sig_prefix=sig_prefix, start=start)
     return 0
   t = np.asarray(rows["type"], dtype=int)
   f = np.asarray(rows["force"], dtype=np.float64)
@@ -477,6 +513,17 @@ def admissibility(rec, mjm, m, d, w, rows=None, contact_force=True, sig_prefix="
     D = np.asarray(rows["D"], dtype=np.float64)
     live = np.any(J != 0, axis=1)
     extra = np.abs(Md) @ sa + np.abs(J).T @ (D * (np.abs(J) @ sa) * live)
+    if start_force and mjm.opt.solver == mujoco.mjtSolver.mjSOL_NEWTON and mjm.opt.cone == mujoco.mjtCone.mjCONE_PYRAMIDAL:
+      # the reconstruction Ma - qfrc_smooth - grad_scale*grad carries the gradient of the START point along the ray: its
+      # round-off scales with the force the rows exert at the start point, f(J start - aref) -- after a world was rewritten
+      # or reset that is ~D*|aref| although the final forces are small (measured: error ~ 1 eps32 of that magnitude)
+      jar0 = J @ np.asarray(start, dtype=np.float64)[: mjm.nv] - np.asarray(rows["aref"], dtype=np.float64)
+      f0 = D * np.abs(jar0)
+      fric = (t == T_FDOF) | (t == T_FTEN)
+      f0[fric] = np.minimum(f0[fric], fl[fric])
+      one = np.isin(t, (T_LJNT, T_LTEN, T_CFL, T_CPYR))
+      f0[one & (jar0 > 0)] = 0.0
+      extra = extra + np.abs(J).T @ (f0 * live)
   bound = 128 * EPS32 * (mag + np.abs(Ma) + np.abs(qs) + extra) + 1e-6 * max(1.0, float(np.abs(jtf).max()))
   if not np.all(np.isfinite(qc)):
     rec.viol(sig_prefix + "qfrc_constraint:nonfinite", f"qfrc_constraint not finite {ctx}")
